@@ -11,8 +11,9 @@ Prefs == {0} \cup (IF Impl = "trie" THEN Keys ELSE {})
 DictOps == {<<"Put", k, v>> : k \in Keys, v \in 1..NVal} \cup {<<"Get", k>> : k \in Keys}
            \cup {<<"Rm", k>> : k \in Keys} \cup {<<"Count">>}
            \cup {<<"IterAll", s, p>> : s \in Stops, p \in Prefs}
-           \cup {<<"NotifyAdd", s[1], s[2], B01(s[3]), B01(s[4])>> : s \in NotifShapes}
-           \cup {<<"NotifyDel", s[1], s[2], B01(s[3]), B01(s[4])>> : s \in NotifShapes}
+           \cup {<<"NotifyAdd", s[1], s[2], B01(s[3]), B01(s[4]), t>> : s \in NotifShapes, t \in Tags}
+           \cup {<<"NotifyDel", s[1], s[2], B01(s[3]), B01(s[4]), t>> : s \in NotifShapes, t \in Tags}
+           \cup {<<"NotifyDelAny", s[1], s[2], B01(s[3]), B01(s[4])>> : s \in NotifShapes}
 IterOps == {<<"Put", k, v>> : k \in Keys, v \in 1..NVal} \cup {<<"Get", k>> : k \in Keys}
            \cup {<<"Rm", k>> : k \in Keys} \cup {<<"Count">>}
            \cup {<<"IterCreate", i, p>> : i \in 1..MaxIter, p \in Prefs}
@@ -29,8 +30,9 @@ GDo(op) ==
     [] op[1] = "Rm"         -> Rm(op[2])
     [] op[1] = "Count"      -> Count
     [] op[1] = "IterAll"    -> IterAll(op[2], op[3])
-    [] op[1] = "NotifyAdd"  -> NotifyAdd(op[2], op[3], op[4] = 1, op[5] = 1)
-    [] op[1] = "NotifyDel"  -> NotifyDel(op[2], op[3], op[4] = 1, op[5] = 1)
+    [] op[1] = "NotifyAdd"  -> NotifyAdd(op[2], op[3], op[4] = 1, op[5] = 1, op[6])
+    [] op[1] = "NotifyDel"  -> NotifyDel(op[2], op[3], op[4] = 1, op[5] = 1, op[6])
+    [] op[1] = "NotifyDelAny" -> NotifyDelAny(op[2], op[3], op[4] = 1, op[5] = 1)
     [] op[1] = "IterCreate" -> IterCreate(op[2], op[3])
     [] op[1] = "IterNext"   -> iters[op[2]].open /\ ~iters[op[2]].ended /\ IterNext(op[2], NextKey(op[2]))
     [] op[1] = "IterFree"   -> IterFree(op[2])
